@@ -153,6 +153,9 @@ func (c *Ctx) keySignature2(u *FuncUnit, v *types.Var, cs codecShape, depth int)
 					if c.sigKind != "" && s.u.Recv != "" && s.u.Recv != c.sigKind {
 						continue // a helper shared by all tree kinds: the call site of this kind
 					}
+					if s.u == u {
+						continue // the recursive descent hands its own parameter on
+					}
 					if a := argFor(s.call, pi); a != nil {
 						if av := identVar(info, a); av != nil {
 							c.sigDepth++
